@@ -176,6 +176,9 @@ pub fn run_one(prop: &str, f: PropFn, tier: Tier, sandbox: &std::path::Path, tap
             sys::begin(sys_state);
             let mut sim = Sim::new(tape);
             sim.record = record;
+            if record && std::env::var("BITASIM_DRAWS").is_ok() {
+                sim.tape.log = Some(Vec::new());
+            }
             // hash seed draw is consumed here so the tape and the getrandom stream agree
             let _ = sim.tape.draw(u32::MAX);
             let _ = sim.tape.draw(u32::MAX);
@@ -216,7 +219,13 @@ pub fn run_one(prop: &str, f: PropFn, tier: Tier, sandbox: &std::path::Path, tap
                 sim_time_ns: sim.now_ns,
                 tasks_run: sim.tasks_run,
                 counters,
-                events: sim.events,
+                events: {
+                    let mut ev = sim.events;
+                    if let Some(l) = &sim.tape.log {
+                        ev.push(format!("DRAWS {:?}", l));
+                    }
+                    ev
+                },
                 notes: ctx.notes,
                 harness_error,
             }
